@@ -11,6 +11,8 @@ package auth
 
 // ---- rights compilation (C11): the matchers of a user are exactly those of the CURRENT access strings ------------
 //@ import "github.com/cnotch/ipchub/utils/scan"
+//@ global pathScanner readonly
+//@ global scan.Semicolon readonly
 
 // ---- abstract segmentation of a string by a delimiter (C16) ------------------------------------------------------
 // What utils/scan.Scanner.Scan computes, named: hasDelim(d,s) - s contains the delimiter d; first(d,s) - the text
